@@ -324,6 +324,11 @@ fn apply_fn(env: &Env<'_>, func: &str, mut argv: Vec<ArgV>) -> Option<MVal> {
             v => panic!("model: concat over {v:?}"),
         });
     }
+    if func == "ctxfn" {
+        let (must, exact) = *env.mode.borrow();
+        env.calls.borrow_mut().push(PredCall { rec: CallRec { name: func.to_string(), args: argv.clone() }, must, exact });
+        return funcs::apply_ctxfn(&argv);
+    }
     let s = funcs::sig(func).expect("model: known function");
     // omitted optional parameters are replaced by their declared defaults
     let given_opts = argv.len() - s.params.len();
